@@ -798,9 +798,14 @@ def corpus_cases():
 
 def run_case(ctx, probe, case):
     """Execute one stored/replayed case; failures are reported through ctx.fail."""
-    before = len(ctx.failures) + sum(ctx.known_hits.values())
+    def tally():
+        # F11 (terminus rows) is reproduced by any run that carries N+/C- rows; it is not what these cases are about
+        skip = "C06-F11" if case.get("expect") == "passes" else None
+        return len(ctx.failures) + sum(v for k, v in ctx.known_hits.items() if k != skip)
+
+    before = tally()
     run_case_(ctx, probe, case)
-    after = len(ctx.failures) + sum(ctx.known_hits.values())
+    after = tally()
     if case.get("expect") == "passes" and after != before:
         ctx.notes.append(f"regression case of a fixed finding fails again: {case.get('regression_of')}")
     if case.get("expect") == "fails" and after == before:
@@ -982,10 +987,11 @@ def replay(ctx, data):
         print("replay: real PROPKA case; run pdb2pqr on tests/data/1A1P.pdb with", case)
         return 1
     probe = Probe()
-    ctx.known = []  # report known findings too when replaying
     run_case(ctx, probe, case)
     for f in ctx.failures:
         print("replay: FAILS:", f["what"])
+    for k, n in ctx.known_hits.items():
+        print(f"replay: known finding {k} reproduced {n}x (not counted)")
     if not ctx.failures:
         print("replay: passes")
     return 1 if ctx.failures else 0
